@@ -53,7 +53,8 @@ class BestSizes(Contract):
             for case in ('like_int_frac', 'like_int_word', 'resize_int_frac', 'resize_int_word'):
                 yield dict(signed=signed, f=3, shape=[], case=case, bits=6)
         # integer values in narrow / unsigned / low-precision carriers: sizing must not be done in the carrier's arithmetic
-        for car in ('arr:int8', 'np:int8', 'arr:uint8', 'np:uint8', 'arr:int16', 'np:uint16', 'arr:int32', 'arr:uint32', 'np:int64', 'arr:uint64', 'pyint'):
+        for car in ('arr:int8', 'np:int8', 'arr:uint8', 'np:uint8', 'arr:int16', 'np:uint16', 'arr:int32', 'arr:uint32', 'np:int64', 'arr:uint64', 'pyint',
+                    'np:float16', 'arr:float16', 'np:float32'):      # (half / single precision carriers hold integer values here: exact, but scaling in their own type overflows)
             for gf in (None, 1, 4, 10, 28):
                 if tier == 'quick' and gf in (1, 10) and car not in ('arr:int8', 'np:uint8', 'arr:int16'):
                     continue
@@ -82,6 +83,8 @@ class BestSizes(Contract):
         if cfg['case'].startswith('carrier_'):
             car = cfg['carrier']
             clo, chi = (-128, 127) if 'int8' in car and 'uint8' not in car else (0, 255) if 'uint' in car else (-255, 255)
+            if 'float' in car:
+                return {'k': [D.dyadic('k%d' % i, 0, clo, chi) for i in range(n)]}      # integer-valued floats
             return {'k': [D.int('k%d' % i, clo, chi) for i in range(n)]}
         return {'k': [D.dyadic('k%d' % i, cfg['f'], lo, lim) for i in range(n)]}
 
